@@ -374,3 +374,26 @@ def _soft(rawname):
 
 for _m in ('wrap_closure_block', 'body_prefix', 'replace_in_re', 'wrap_closure_block_re'):
     setattr(FileContracts, _m, _soft('_%s_raw' % _m))
+
+
+def _insert_re(self, name, pattern, text, within=None, nth=0, occ=0, kind='proof', after=False):
+    """insert ghost text before (or after) the occ-th code match of a regular expression inside fn `name`; `text` may use groups"""
+    f = self.fn(name, within, nth)
+    lo, hi = f.body_open, f.body_close
+    ms = [m for m in re.finditer(pattern, self.text[lo:hi]) if self.mask[lo + m.start()]]
+    if len(ms) <= occ:
+        raise LostAnchor('%s: pattern %r (occ %d) not found in fn %s' % (self.relpath, pattern, occ, name))
+    m = ms[occ]
+    pos = lo + (m.end() if after else m.start())
+    self.ed.insert(pos, self._ren(self._qual(f, within), m.expand(text)), kind, self._qual(f, within))
+    return m.groups()
+
+
+def _fn_text(self, name, within=None, nth=0):
+    f = self.fn(name, within, nth)
+    return self.text[f.body_open:f.body_close + 1]
+
+
+FileContracts._insert_re_raw = _insert_re
+FileContracts.insert_re = _soft('_insert_re_raw')
+FileContracts.fn_text = _fn_text
